@@ -21,7 +21,7 @@ Types:  'int' ↦ Int,  'dec' ↦ Rat,  'bool' ↦ Bool (Prop in conditions),  '
         'frame' ↦ String → String → M Rat (a pandas frame read as `frame.loc[row].column`; row/column misses raise inside),
         ('tuple', [τ…]) ↦ τ × …,  ('dict', τ) ↦ List (String × τ) in insertion order (keys are 'tok').
 """
-import ast, os, re, sys
+import ast, copy, os, re, sys
 
 sys.path.insert(0, os.path.dirname(os.path.abspath(__file__)))
 from gen_common import REPO, OUT, ShapeError
@@ -165,7 +165,12 @@ class Fn:
                 return f"({n.value} : Int)", "int"
             if type(n.value) is str:
                 return '"' + n.value.replace("\\", "\\\\").replace('"', '\\"') + '"', "str"
-            fail(n, f"constant of type {type(n.value).__name__} (floats, None, bytes are outside the subset)")
+            if type(n.value) is float and n.value == n.value and abs(n.value) != float("inf"):
+                # a float literal: usable only as an operand of a comparison with a Decimal / int, which CPython decides on the exact
+                # binary value of the float (no rounding, no context)
+                num, den = n.value.as_integer_ratio()
+                return f"(({num} : Rat) / ({den} : Rat))", "fconst"
+            fail(n, f"constant of type {type(n.value).__name__} (None, bytes, non-finite floats are outside the subset)")
         if isinstance(n, ast.Name):
             if n.id in env:
                 return n.id, env[n.id]
@@ -289,6 +294,12 @@ class Fn:
         if tb == "prop": b, tb = self.as_bool(b, tb, n), "bool"
         if ta == "dec0": ta = "dec"       # comparisons are exact: int 0 and Decimal 0 compare alike
         if tb == "dec0": tb = "dec"
+        if "fconst" in (ta, tb):           # Decimal/int against a float literal: exact comparison of the two values
+            if ta == tb or not {ta, tb} <= {"fconst", "dec", "int"}:
+                fail(n, f"comparison {sym} between {ta} and {tb}")
+            a = a if ta == "fconst" else self.as_dec(a, ta, n)
+            b = b if tb == "fconst" else self.as_dec(b, tb, n)
+            return f"({a} {sym} {b})"
         if ta == tb and ta in ("int", "dec"):
             return f"({a} {sym} {b})"
         if {ta, tb} == {"int", "dec"}:  # exact comparison, no rounding
@@ -784,11 +795,38 @@ class Fn:
 ANN = {"int": "int", "Decimal": "dec", "bool": "bool", "str": "str"}
 
 
+class _StateRewriter(ast.NodeTransformer):
+    """object fields listed in Unit.state become plain variables: `self.balance` (read or written) ↦ `balance`, `return self` ↦ `return
+    <the fields>`.  Purely textual: an attribute is rewritten iff its source text is a key of the table."""
+
+    def __init__(self, state):
+        self.state = state
+
+    def visit_Attribute(self, node):
+        key = ast.unparse(node)
+        if key in self.state:
+            return ast.copy_location(ast.Name(id=self.state[key][0], ctx=node.ctx), node)
+        return self.generic_visit(node)
+
+    def visit_Return(self, node):
+        if isinstance(node.value, ast.Name) and node.value.id == "self":
+            names = [ast.Name(id=v, ctx=ast.Load()) for v, _ in self.state.values()]
+            node.value = names[0] if len(names) == 1 else ast.Tuple(elts=names, ctx=ast.Load())
+            return node
+        return self.generic_visit(node)
+
+
 class Unit:
     """one Python source file (optionally one class of static methods) → one generated Lean file"""
 
-    def __init__(self, module, src, funcs, cls=None, consts=(), prefix="", reads=None):
+    def __init__(self, module, src, funcs, cls=None, consts=(), prefix="", reads=None, state=None, allow_defaults=False):
         self.module, self.src, self.funcs, self.cls, self.const_names, self.prefix = module, src, funcs, cls, consts, prefix
+        # state: {exact source text of an attribute of self: (variable, type)} — an object field the method reads AND writes.  The field becomes
+        # a leading parameter (its value on entry) that the body may re-assign; `return self` returns the fields' values on exit, in the
+        # order of this table (one field: the value itself).  A method of an object is thereby read as a function old fields -> new fields.
+        self.state = state or {}
+        # defaults in the signature are ignored (the generated function takes every parameter explicitly)
+        self.allow_defaults = allow_defaults
         # reads: {exact source text of an expression: (parameter name, type)} — attribute / data-row reads of a method
         # that become extra leading parameters of the generated definition (pure inputs; if the text changes in the
         # source the expression is no longer recognised and the translation fails loudly)
@@ -855,8 +893,11 @@ class Unit:
                     consts = self.read_consts(body)
                     consts.update(EXTERNAL_CONSTS)
                 a = fdef.args
-                if a.vararg or a.kwarg or a.kwonlyargs or a.defaults or a.posonlyargs:
+                if a.vararg or a.kwarg or a.kwonlyargs or (a.defaults and not self.allow_defaults) or a.posonlyargs:
                     fail(fdef, "defaults / *args / **kwargs in the signature")
+                if self.state:
+                    fdef = _StateRewriter(self.state).visit(copy.deepcopy(fdef))
+                    ast.fix_missing_locations(fdef)
                 argnames = [x.arg for x in a.args]
                 if argnames and argnames[0] == "self" and self.cls:
                     argnames = argnames[1:]          # a method: `self` is reachable only through Unit.reads
@@ -869,10 +910,10 @@ class Unit:
                 for d in fdef.decorator_list:
                     if getattr(d, "id", None) != "staticmethod":
                         fail(fdef, "decorator other than @staticmethod")
-                fn = Fn(self, fdef, sig.params, consts or dict(EXTERNAL_CONSTS))
+                fn = Fn(self, fdef, list(self.state.values()) + sig.params, consts or dict(EXTERNAL_CONSTS))
                 lines, ret, uses_cx, uses_pow = fn.translate()
                 sig.ret, sig.uses_cx, sig.uses_pow = ret, uses_cx, uses_pow
-                sig.reads = [(nm, ty) for nm, ty in self.reads.values() if nm in fn.used_reads]
+                sig.reads = [(nm, ty) for nm, ty in self.reads.values() if nm in fn.used_reads] + list(self.state.values())
                 binders = ("(cx : NumCtx) " if uses_cx else "") + ("(dpow : Rat → Nat → Rat) " if uses_pow else "") \
                     + "".join(f"({nm} : {lean_ty(ty)}) " for nm, ty in sig.reads) + " ".join(f"({p} : {lean_ty(t)})" for p, t in sig.params)
                 head = f"/-- `{self.src}` line {fdef.lineno}: `{name}` -/\ndef {sig.lean_name} {binders} : M ({lean_ty(ret)}) := do"
@@ -966,6 +1007,13 @@ UNISWAP_HELPER = Unit("UniswapHelper", "demeter/uniswap/helper.py", [
 ], consts=("Q96",), prefix="uni_")
 UNISWAP_HELPER.uses = [UNITS[0]]
 UNITS.append(UNISWAP_HELPER)
+
+
+BROKER_TYPING = Unit("BrokerTyping", "demeter/broker/_typing.py", [
+    ("add", {"amount": D}),
+    ("sub", {"amount": D, "allow_negative_balance": B}),
+], cls="Asset", prefix="asset_", state={"self.balance": ("balance", D)}, allow_defaults=True)
+UNITS.append(BROKER_TYPING)
 
 
 BASELINE = os.path.join(os.path.dirname(os.path.abspath(__file__)), "gen_baseline")
